@@ -1,6 +1,8 @@
 package govc
 
 import (
+	"fmt"
+	"strings"
 	"go/token"
 	"go/types"
 
@@ -110,4 +112,167 @@ func init() {
 		}
 		return x.freshValue(rty, "sub", n.guard, n.st)
 	})
+}
+
+func init() {
+	// sync/atomic: an atomic access to a field guarded by a lock that is held behaves like a plain access; otherwise
+	// other threads may change the value at any time (a load returns an arbitrary value, writes need no lock).
+	aload := func(x *Exec, fc *funcCtx, n *node, callee *ssa.Function, args []Value, rty types.Type, pos token.Pos) Value {
+		lv, ok := args[0].(LocV)
+		if ok && lv.Kind == "field" {
+			key := lv.Outer + "." + fieldPathName(lv.ST, lv.Path)
+			if li := x.guardedBy(key); li != nil && (n.st.Locks[lockName(li)] || x.holdsByContract(lockName(li))) {
+				return x.load(n, lv, rty, pos)
+			}
+			if li := x.guardedBy(key); li == nil && n.st.FreshObjs[lv.Obj] > 0 {
+				return x.load(n, lv, rty, pos)
+			}
+			if x.P.Spec.Fields[key] == "quiescent" {
+				x.VC.Assumptions["field "+key+" is not written by another thread during one activation that reads it atomically (quiescent)"] = true
+				return x.load(n, lv, rty, pos)
+			}
+		}
+		x.VC.Assumptions["an atomic load of a location other threads may write returns an arbitrary value"] = true
+		return x.freshValue(rty, "atomic", n.guard, n.st)
+	}
+	astore := func(x *Exec, fc *funcCtx, n *node, callee *ssa.Function, args []Value, rty types.Type, pos token.Pos) Value {
+		if lv, ok := args[0].(LocV); ok {
+			elem := lv.Ty.Underlying().(*types.Pointer).Elem()
+			x.storeCheck(n, lv, pos)
+			x.store(n, lv, args[1], elem, pos)
+		}
+		return TupleV{}
+	}
+	for _, nm := range []string{"LoadUint32", "LoadInt32", "LoadInt64", "LoadUint64"} {
+		regExtern("sync/atomic."+nm, "atomic load (see engine note on atomics)", aload)
+	}
+	for _, nm := range []string{"StoreUint32", "StoreInt32", "StoreInt64", "StoreUint64"} {
+		regExtern("sync/atomic."+nm, "atomic store: plain store (lockset obligation if the field is declared guarded)", astore)
+	}
+	cas := func(x *Exec, fc *funcCtx, n *node, callee *ssa.Function, args []Value, rty types.Type, pos token.Pos) Value {
+		lv, ok := args[0].(LocV)
+		if !ok {
+			return x.freshValue(rty, "cas", n.guard, n.st)
+		}
+		elem := lv.Ty.Underlying().(*types.Pointer).Elem()
+		cur := aload(x, fc, n, callee, args[:1], elem, pos)
+		cs, ok1 := cur.(Scalar)
+		os_, ok2 := args[1].(Scalar)
+		ns, ok3 := args[2].(Scalar)
+		if !ok1 || !ok2 || !ok3 {
+			return x.freshValue(rty, "cas", n.guard, n.st)
+		}
+		okT := x.VC.Def("cas.ok", Eq(cs.T, os_.T))
+		x.store(n, lv, Scalar{T: x.VC.Def("cas.new", Ite(okT, ns.T, cs.T)), Ty: elem}, elem, pos)
+		return Scalar{T: okT, Ty: tyBool}
+	}
+	regExtern("sync/atomic.CompareAndSwapUint32", "atomic compare-and-swap on the current (or arbitrary, if unguarded) value", cas)
+	regExtern("sync/atomic.CompareAndSwapInt32", "atomic compare-and-swap", cas)
+	add := func(x *Exec, fc *funcCtx, n *node, callee *ssa.Function, args []Value, rty types.Type, pos token.Pos) Value {
+		lv, ok := args[0].(LocV)
+		if !ok {
+			return x.freshValue(rty, "add", n.guard, n.st)
+		}
+		elem := lv.Ty.Underlying().(*types.Pointer).Elem()
+		cur := aload(x, fc, n, callee, args[:1], elem, pos)
+		cs, ok1 := cur.(Scalar)
+		d, ok2 := args[1].(Scalar)
+		if !ok1 || !ok2 {
+			return x.freshValue(rty, "add", n.guard, n.st)
+		}
+		nv := Scalar{T: x.VC.Def("atomic.add", BVBin("bvadd", cs.T, d.T)), Ty: elem}
+		x.store(n, lv, nv, elem, pos)
+		return nv
+	}
+	regExtern("sync/atomic.AddInt32", "atomic add", add)
+	regExtern("sync/atomic.AddInt64", "atomic add", add)
+	regExtern("math/rand.Intn", "returns r with 0 <= r < n (requires n > 0)", func(x *Exec, fc *funcCtx, n *node, callee *ssa.Function, args []Value, rty types.Type, pos token.Pos) Value {
+		r := x.freshValue(rty, "rand", n.guard, n.st).(Scalar)
+		if a, ok := args[0].(Scalar); ok {
+			x.Oblige("pre", "n > 0 @math/rand.Intn", fmt.Sprint(pos), pos, n.guard, BVCmp("bvsgt", a.T, BVLit(0, 64)), nil)
+			x.VC.Assume(n.guard, And(BVCmp("bvsle", BVLit(0, 64), r.T), BVCmp("bvslt", r.T, a.T)), "rand.Intn")
+		}
+		return r
+	})
+}
+
+func init() {
+	// sync.Pool: `field Type.f: pool <GoType>` declares what a pool holds; Get returns a non-nil value of that type
+	// (arbitrary contents), Put has no effect on tracked state.
+	regExtern("(*sync.Pool).Get", "returns a non-nil value of the element type declared for the pool field (arbitrary contents; distinct from objects the activation already owns is NOT assumed)", func(x *Exec, fc *funcCtx, n *node, callee *ssa.Function, args []Value, rty types.Type, pos token.Pos) Value {
+		key := ""
+		if call, ok := x.curInstr.(*ssa.Call); ok && len(call.Call.Args) > 0 {
+			key = x.dynKeyAny(call.Call.Args[0])
+		}
+		cls := x.P.Spec.Fields[key]
+		if strings.HasPrefix(cls, "pool ") {
+			tn := strings.TrimSpace(strings.TrimPrefix(cls, "pool "))
+			if ty := x.poolType(tn); ty != nil {
+				v := x.freshValue(ty, "pool.get", n.guard, n.st)
+				if sc, ok := v.(Scalar); ok && sc.T.S == IntS {
+					x.VC.Assume(n.guard, Not(Eq(sc.T, IntLit(0))), "pool-get-nonnil")
+				}
+				return x.makeInterface(n, v, ty, rty)
+			}
+		}
+		x.VC.Warnf("sync.Pool.Get on a pool without a declared element type (%s): arbitrary interface value", key)
+		return x.freshValue(rty, "pool.get", n.guard, n.st)
+	})
+	regExtern("(*sync.Pool).Put", "no effect on tracked state", func(x *Exec, fc *funcCtx, n *node, callee *ssa.Function, args []Value, rty types.Type, pos token.Pos) Value {
+		return TupleV{}
+	})
+	nop := func(x *Exec, fc *funcCtx, n *node, callee *ssa.Function, args []Value, rty types.Type, pos token.Pos) Value {
+		return x.wrapResults(x.freshResults(rty, callee.Name(), n), rty)
+	}
+	regExtern("runtime.Gosched", "no effect", nop)
+	regExtern("(*time.Timer).Stop", "no effect on tracked state", nop)
+	regExtern("(*time.Ticker).Stop", "no effect on tracked state", nop)
+	regExtern("time.NewTimer", "returns a non-nil timer whose channel C is non-nil", func(x *Exec, fc *funcCtx, n *node, callee *ssa.Function, args []Value, rty types.Type, pos token.Pos) Value {
+		r := x.alloc(n.st, "timer")
+		return Scalar{T: r, Ty: rty}
+	})
+	regExtern("time.NewTicker", "returns a non-nil ticker", func(x *Exec, fc *funcCtx, n *node, callee *ssa.Function, args []Value, rty types.Type, pos token.Pos) Value {
+		r := x.alloc(n.st, "ticker")
+		return Scalar{T: r, Ty: rty}
+	})
+}
+
+// dynKeyAny names the field a value was loaded from ("Type.field"), looking through one load.
+func (x *Exec) dynKeyAny(v ssa.Value) string {
+	if k := x.dynKey(v); k != "" {
+		return k
+	}
+	if fa, ok := v.(*ssa.FieldAddr); ok {
+		pt := fa.X.Type().Underlying().(*types.Pointer)
+		st := pt.Elem().Underlying().(*types.Struct)
+		return typeName(pt.Elem()) + "." + st.Field(fa.Field).Name()
+	}
+	if g, ok := v.(*ssa.Global); ok {
+		return g.Name()
+	}
+	if u, ok := v.(*ssa.UnOp); ok {
+		if g, ok := u.X.(*ssa.Global); ok {
+			return g.Name()
+		}
+	}
+	return ""
+}
+
+// poolType resolves the element type text of a pool declaration: "*T", "chan *T", "[]byte".
+func (x *Exec) poolType(tn string) types.Type {
+	switch {
+	case strings.HasPrefix(tn, "chan "):
+		if el := x.poolType(strings.TrimSpace(tn[5:])); el != nil {
+			return types.NewChan(types.SendRecv, el)
+		}
+	case strings.HasPrefix(tn, "*"):
+		if el := x.poolType(tn[1:]); el != nil {
+			return types.NewPointer(el)
+		}
+	case tn == "[]byte":
+		return types.NewSlice(types.Typ[types.Uint8])
+	default:
+		return x.P.LookupType(tn)
+	}
+	return nil
 }
